@@ -132,6 +132,10 @@ pub struct Case {
     pub ring: bool,
     pub bitrate: u32,
     pub stop: Stop,
+    /// every link runs through two transit gates of a relay module (out - sw.a == sw.b - in); the middle hop, which
+    /// carries the slow queueing channel, is connected last
+    #[serde(default)]
+    pub via_relay: bool,
 }
 
 pub struct C20;
@@ -317,6 +321,26 @@ pub fn run_case(case: &Case) -> Result<(bool, Vec<&'static str>), Failure> {
         }
         block_paths.push(p);
     }
+    let plain = |what: &str| M {
+        state: Tok::new(what),
+        spec: ModSpec {
+            parent: None,
+            burst: Vec::new(),
+            selfs: Vec::new(),
+            tasks: Vec::new(),
+            must_join: false,
+            shutdown: None,
+            panic_at: None,
+            keep_last: false,
+            emit_at_end: false,
+        },
+        handled: 0,
+        kept: None,
+        rx_keepalive: Vec::new(),
+    };
+    if case.via_relay {
+        sim.node("sw", plain("module state (relay)"));
+    }
     let links = if case.ring { n } else { n - 1 };
     for i in 0..n {
         // every module owns an out gate; only `links` of them are wired
@@ -330,7 +354,15 @@ pub fn run_case(case: &Case) -> Result<(bool, Vec<&'static str>), Failure> {
                 ChannelDropBehaviour::Queue(None),
             ));
             if !std::sync::Arc::ptr_eq(&out, &inp) {
-                out.connect(inp, Some(ch));
+                if case.via_relay {
+                    let a = sim.gate("sw", &format!("a{i}"));
+                    let b = sim.gate("sw", &format!("b{i}"));
+                    out.connect(a.clone(), None);
+                    b.clone().connect(inp, None);
+                    a.connect(b, Some(ch));
+                } else {
+                    out.connect(inp, Some(ch));
+                }
             }
         }
     }
@@ -404,6 +436,9 @@ pub fn run_case(case: &Case) -> Result<(bool, Vec<&'static str>), Failure> {
     if !block_paths.is_empty() {
         labels.push("AsyncFn-building-block");
     }
+    if case.via_relay && (n > 1 || case.ring) {
+        labels.push("links-through-transit-gates-middle-hop-connected-last");
+    }
     if case.mods.iter().take(n).any(|m| m.emit_at_end) && !matches!(case.stop, Stop::BuilderDropped | Stop::SimDropped | Stop::RuntimeDroppedBeforeStart) {
         labels.push("events-emitted-during-tear-down");
     }
@@ -418,7 +453,7 @@ impl Prop for C20 {
     type Case = Case;
 
     fn rule() -> String {
-        "proptest: 1..8 modules (flat or parent/child) wired as a ring or chain over slow queueing channels, each pushing a burst of instance-tracked \
+        "proptest: 1..8 modules (flat or parent/child) wired as a ring or chain over slow queueing channels (directly, or through two transit gates of a relay module with the middle hop connected last), each pushing a burst of instance-tracked \
          message bodies at start (channel backlog), scheduling tracked self messages, spawning tasks blocked on a one-hour sleep / pending / recv / \
          short sleep that own tracked tokens (try_join or must-join), optionally shutting down (and restarting), panicking in the k-th handler \
          call, keeping the last message in its state, emitting messages from at_sim_end; 0..2 nodes built with des' AsyncFn building block (new / failable / io) whose \
@@ -479,8 +514,10 @@ impl Prop for C20 {
             prop_oneof![Just(8_000u32), Just(100_000), Just(1_000_000), Just(100)],
             stop,
             prop_oneof![2 => Just(Vec::new()), 1 => proptest::collection::vec(block, 1..3)],
+            proptest::bool::weighted(0.4),
         )
-            .prop_map(|(mods, stack, ring, bitrate, stop, blocks)| Case {
+            .prop_map(|(mods, stack, ring, bitrate, stop, blocks, via_relay)| Case {
+                via_relay,
                 blocks,
                 mods,
                 stack,
